@@ -15,6 +15,14 @@ open Upnp Upnp.C01
 def firesSearch (cfg : Cfg) (h : Hdrs) : Bool :=
   match searchClassify cfg.targetHost h with | .ok b => b | .error _ => false
 
+/-- the interface between the decoder model and the tracker model, as a test on one header map:
+    whenever the USN yields a udn, `_udn` is that udn (`C03.Parse.RawOp.decoded`) -/
+def udnGuaranteeB (h : Hdrs) : Bool :=
+  let hs : C03.Hdrs String := C16.SMap.writeAll C03.Parse.lower [] (pairsOf h)
+  match (C03.Parse.truthy (PyDict.get? hs "usn")).bind C03.Parse.udnFromUsn with
+  | some u => C03.Parse.truthy (PyDict.get? hs "_udn") == some u
+  | none => true
+
 /-- what a well-formed message makes the endpoint do -/
 inductive Dispatch
   | notify                 -- the user callback of a plain listener fires
